@@ -76,6 +76,7 @@ Definition ser_parsed (T:tables) (m:option obj) : bytes :=
   match m with
   | None => [x00]
   | Some o => x01 :: ser_str (match obj_identity o with Ok i => i | _ => "?"%string end) ++ ser_bytes (o_payload o)
+                  ++ ser_out_bytes (serialize T o)
   end.
 Definition ser_result (T:tables) (hr:list liberr * rd_result obj) : bytes :=
   let '(h, r) := hr in
